@@ -246,7 +246,7 @@ def replay_open(f):
 
 def run(ctx, args):
     ctx.branches, ctx.skipped = {}, {}
-    ctx.regen([])
+    ctx.regen(["GenWs.v"])
     ctx.build("Props/C10.vo")
     quick = ctx.tier == "quick"
     recs = []
